@@ -211,6 +211,19 @@ def stokes_green_cases(slot: int, mono: Any, mname: str) -> list[tuple[str, str]
     out.append((f"stokes:{tag}", "" if equal(circ, circ_s) else
         f"circulation along the rim {short(circ)} != curl over the paraboloid cap {short(circ_s)}"))
     out.append((f"clean:{tag}", clean(circ, cs) or clean(circ_s, cs)))
+    # the same field given with fewer components (missing ones are zero): same integrals
+    for ncomp in range(slot + 1, 3):
+        fshort = lib_field(F3[:ncomp], cs)
+        cshort = call(A.circulation_along_surface_boundary, fshort, cap, (rho, 0, Rr), (t, 0, 2 *
+            sp.pi))
+        out.append((f"stokes-{ncomp}-components:{tag}", "" if equal(cshort, circ) else
+            f"field given with {ncomp} components: curl over the paraboloid cap {short(cshort)}, "
+            f"circulation along the rim {short(circ)}"))
+        lshort = call(A.circulation_along_curve, fshort, [Rr * sp.cos(t), Rr * sp.sin(t), 0], (t, 0,
+            2 * sp.pi))
+        out.append((f"circulation-{ncomp}-components:{tag}", "" if equal(lshort, circ) else
+            f"field given with {ncomp} components: circulation {short(lshort)}, with 3 components "
+            f"{short(circ)}"))
     return out
 
 
